@@ -13,8 +13,8 @@ import json, os, subprocess, sys
 from .. import core, tlc, tlaval, dsdlio, reader_replay as rr
 from . import c02
 
-def _rel(f):
-    ns = ["r" if f["root"] == "t" else "k"] + ["n%d" % (i + 1) for i in range(f["depth"])]
+def _rel(f, lname="k"):
+    ns = ["r" if f["root"] == "t" else lname] + ["n%d" % (i + 1) for i in range(f["depth"])]
     return "%s/%s/%s.%d.%d.%s" % ("troot" if f["root"] == "t" else "lroot", "/".join(ns), f["name"], f["maj"], f["min"], f["ext"])
 
 @core.safe
@@ -24,13 +24,16 @@ def tree_worker(arg):
         return None
     st = tlaval.parse_state_block(block)
     files, out = st["case"]["files"], st["out"]
-    fs = {_rel(f): "@sealed\n" for f in files}
+    # the lookup directory provides another root namespace ("k") or - allowed by default - one of the SAME name ("r"):
+    # either way none of its files belongs to the result (the specification's Globbed(files, "t"))
+    lname = "r" if hash(block) % 2 else "k"
+    fs = {_rel(f, lname): "@sealed\n" for f in files}
     fs.setdefault("troot/r/.keep", "")
-    fs.setdefault("lroot/k/.keep", "")
+    fs.setdefault("lroot/%s/.keep" % lname, "")
     exp = [(".".join(["r"] + ["n%d" % (i + 1) for i in range(f["depth"])] + [f["name"]]), f["maj"], f["min"], _rel(f)) for f in out]
     diff = []
     with dsdlio.Tree(fs, "c10t") as tr:
-        status, res, _ = dsdlio.read_ns(tr.path("troot/r"), [tr.path("lroot/k")])
+        status, res, _ = dsdlio.read_ns(tr.path("troot/r"), [tr.path("lroot/" + lname)])
         if status != "ok":
             diff.append(("rejected", dsdlio.err_info(res)))
         else:
@@ -41,7 +44,7 @@ def tree_worker(arg):
                 diff.append(("source_file_path_to_root", [str(t.source_file_path_to_root) for t in res]))
     r = {"nt": len(exp) >= 2, "key": core.jhash(tlaval.to_json(files))}
     if diff:
-        r["bad"] = {"kind": "tree", "case": tlaval.to_json(files), "files": sorted(fs), "diff": diff}
+        r["bad"] = {"kind": "tree", "case": tlaval.to_json(files), "files": sorted(fs), "lookup_namespace": lname, "diff": diff}
     return r
 
 def _dname(d):
@@ -118,14 +121,23 @@ def files_vs_namespace_worker(arg):
         root = str(tr.root)
         lookups = [tr.path("d2/b"), tr.path("d3/a")]
         targets = [tr.path(rr.relpath(d)) for d in case["defs"] if rr.idkey(d) in {rr.idkey(t) for t in case["targets"]}]
+        relative = hash(block) % 2 == 1      # the same relative spellings, from the root of each scratch tree, case after case
+        old_cwd = os.getcwd()
         try:
-            direct, transitive = pydsdl.read_files(targets, [tr.path("d1/a")], lookups, allow_unregulated_fixed_port_id=True)
+            if relative:
+                os.chdir(root)
+                direct, transitive = pydsdl.read_files([os.path.relpath(str(t), root) for t in targets], ["d1/a"], ["d2/b", "d3/a"],
+                                                       allow_unregulated_fixed_port_id=True)
+            else:
+                direct, transitive = pydsdl.read_files(targets, [tr.path("d1/a")], lookups, allow_unregulated_fixed_port_id=True)
             ok = True
         except pydsdl.InvalidDefinitionError:
             ok = False
         except Exception as ex:
             ok = None
             diff.append(("exception", type(ex).__name__, str(ex)[:200]))
+        finally:
+            os.chdir(old_cwd)
         if ok is not None and ok != exp["ok"]:
             diff.append(("accepted", ok, exp["ok"]))
         if ok and exp["ok"]:
